@@ -284,6 +284,22 @@ func vTrigOp(t []string) string {
 		harvest := NewHarvest(time.Now(), reply.EventHarvestConfig.EventConfigs)
 		e.ah = NewAppHarvest(AgentRunID("r1"), app, harvest, e.ph)
 		g := e.settle()
+		// Under load a trigger goroutine that has just been started may not have reached its ticker yet when the goroutines
+		// look parked: wait until at least one ticker exists and their number has stopped changing.
+		stable, last := 0, -1
+		for i := 0; i < 400 && stable < 3; i++ {
+			e.mu.Lock()
+			n := len(e.tickers)
+			e.mu.Unlock()
+			if n > 0 && n == last {
+				stable++
+			} else {
+				stable = 0
+			}
+			last = n
+			time.Sleep(2 * time.Millisecond)
+			g = e.settle()
+		}
 		e.mu.Lock()
 		var plan []string
 		for _, tk := range e.tickers {
